@@ -1088,7 +1088,7 @@ func c01GroupArg(r *core.Run, a *svcAnchors, root []*ssa.Function) {
 		}
 		st := ac.Instr.(*ssa.Store)
 		c, ok := st.Val.(*ssa.Call)
-		good := ok && c.Common().StaticCallee() != nil && c.Common().StaticCallee().Name() == "toString"
+		good := ok && c.Common().StaticCallee() != nil && isGroupToString(c.Common().StaticCallee())
 		if good {
 			gf, ok := core.LoadedField(c.Common().Args[0])
 			good = ok && gf.Struct == "regHandler" && gf.Name == "group"
@@ -1342,6 +1342,33 @@ func c01Restart(r *core.Run, rule string, a *svcAnchors, root []*ssa.Function) {
 		}
 	}
 	r.Check(fresh, rule, core.FuncName(a.Serve), "fresh-registry-before-workers", p.Pos(a.Serve.Pos()), "every run starts with a new, empty group registry created before the first worker", "the group registry is not unconditionally re-created before the workers start: entries of the previous run would survive and their groups would never be scheduled again")
+	// ... and the registry is never replaced while workers run: a work item that a worker is
+	// executing is registered only there, a fresh map would let the next submission of its group
+	// start a second work item beside it
+	inServe := map[*ssa.Function]bool{}
+	for _, h := range p.Helpers(a.Serve) {
+		inServe[h] = true
+	}
+	nStores := 0
+	for _, ac := range core.FieldAccesses(root, func(f core.Field) bool { return f == a.RWork }) {
+		if ac.Kind != "store" {
+			continue
+		}
+		nStores++
+		st := ac.Instr.(*ssa.Store)
+		okSite := inServe[ac.Fn] && beforeWorkers(p, a, ac.Instr, firstGo)
+		if fa, isFA := st.Addr.(*ssa.FieldAddr); isFA && !okSite {
+			if al, isAl := core.Strip(fa.X).(*ssa.Alloc); isAl && al.Heap {
+				okSite = true // the constructor fills in the service it has just allocated
+			}
+		}
+		if !okSite {
+			r.Bad(rule, core.FuncName(ac.Fn), "registry-replaced-only-before-workers", p.InstrPos(ac.Instr), "the group registry is replaced while workers may be running: the work items they are executing are registered only in the old map, so the next submission for such a group creates a second work item and two callbacks of the group run at once")
+		}
+	}
+	if nStores > 0 {
+		r.OK(rule, core.FuncName(a.Serve), "registry-replaced-only-before-workers", p.Pos(a.Serve.Pos()), fmt.Sprintf("%d store(s) to the registry field, all before the workers start (or in the constructor)", nStores))
+	}
 }
 
 // isFreshObject: v is a newly allocated object: an Alloc, or the result of a
@@ -1729,4 +1756,18 @@ func resourceGroupField(v ssa.Value) string {
 		}
 	}
 	return ""
+}
+
+// isGroupToString: the method that evaluates a parsed group template, by role
+// (a method on the group type with two parameters and a string result).
+func isGroupToString(fn *ssa.Function) bool {
+	if fn == nil || fn.Signature.Recv() == nil || core.TypeName(fn.Signature.Recv().Type()) != "group" {
+		return false
+	}
+	res := fn.Signature.Results()
+	if res.Len() != 1 || fn.Signature.Params().Len() != 2 {
+		return false
+	}
+	b, ok := res.At(0).Type().Underlying().(*types.Basic)
+	return ok && b.Kind() == types.String
 }
